@@ -95,8 +95,7 @@ class Margins(object):
     def add(self, name, got, ref, scale=None):
         s = scale if scale is not None else max(abs(ref), 1e-300)
         d = abs(got - ref) / s if math.isfinite(got) else float("inf")
-        if d > self.m.get(name, 0.0):
-            self.m[name] = d
+        self.m[name] = max(d, self.m.get(name, 0.0))
         return d
 
 
@@ -187,23 +186,56 @@ def _report(ctx, t, mkB, variant="", fd=False):
 
 # ---------------------------------------------------------------------------
 def _tlc_part(ctx, quick):
-    r = tlc.run("ErrProp", _cfg(ctx, "main", quick, MAIN_INVARIANTS), work=ctx.work, workers=16, timeout=2400)
+    # TLC's -coverage costs more than the whole search here (x3): thorough tier only
+    r = tlc.run("ErrProp", _cfg(ctx, "main", quick, MAIN_INVARIANTS), work=ctx.work, workers=16, timeout=2400, coverage=not quick)
     if r.violation:
         tr = r.trace[-1][-1].get("tree") if r.trace else None
         raise tlc.MachineryError(
             "ErrProp: theorem %s fails on the specification itself at %s" % (r.violation, E.py_expr(E.to_list(tr)) if tr else "?")
         )
-    ctx.tlc(r, "ErrProp depth<=%d" % (2 if quick else 3), vacuity_actions=ACTIONS)
     out = r.out
     if out is None:
         raise tlc.MachineryError("ErrProp wrote no table")
-    cnt = out["counts"]
+    cnt = dict(out["counts"])
     total = sum(cnt[k] for k in ("rat", "rat3", "cal", "unsup", "trans", "trans2", "bound"))
     if total != r.distinct:
         raise tlc.MachineryError("declarative families (%d trees) != states reached by Next (%d)" % (total, r.distinct))
-    if cnt["neg_paths"] == 0 or cnt["trans"] == 0:
-        raise tlc.MachineryError("vacuous characterisation invariants")
-    ctx.part("tlc", **{k: v for k, v in cnt.items()})
+    # distinct states per generating operator, from the table (equal to the reachable set by the line above)
+    by_tag = {}
+    for fam in ("rat", "rat3"):
+        for piece in out[fam]:
+            for row in piece:
+                by_tag[row[0][0]] = by_tag.get(row[0][0], 0) + 1
+    for row in out["cal"] + out["trans"]:
+        by_tag[row[0][0]] = by_tag.get(row[0][0], 0) + 1
+    for t in out["unsup"]:
+        by_tag[t[0]] = by_tag.get(t[0], 0) + 1
+    for t in out["trans2"]:
+        by_tag["over:" + t[0]] = by_tag.get("over:" + t[0], 0) + 1
+    binops = sum(by_tag.get(k, 0) for k in ("add", "sub", "mul", "div"))
+    table_counts = {
+        "Neg": by_tag.get("neg", 0), "PowCs": by_tag.get("powc", 0), "OpConsts": sum(by_tag.get(k, 0) for k in ("addc", "subc", "mulc", "divc")),
+        "OpRights": binops, "OpLefts": binops, "Cal1": by_tag.get("cal1", 0), "Cal2s": by_tag.get("cal2", 0), "Cal2cs": by_tag.get("cal2c", 0),
+        "Cal2ls": by_tag.get("cal2l", 0), "Applys": by_tag.get("apply", 0), "Reflecteds": sum(by_tag.get(k, 0) for k in E.REFL),
+        "Exp": by_tag.get("exp", 0), "Log": by_tag.get("log", 0), "SqrtFD": by_tag.get("sqrtfd", 0), "Sin": by_tag.get("sin", 0),
+        "PowHs": by_tag.get("powh", 0), "PowUs": by_tag.get("powu", 0), "RevPows": by_tag.get("rpow", 0), "TNeg": by_tag.get("over:neg", 0),
+        "TSquare": by_tag.get("over:powc", 0), "TExpLog": by_tag.get("over:exp", 0), "TLogExp": by_tag.get("over:log", 0),
+        "TOpConsts": sum(by_tag.get("over:" + k, 0) for k in ("addc", "subc", "mulc", "divc")),
+        "TOpRights": sum(by_tag.get("over:" + k, 0) for k in ("add", "sub", "mul", "div")),
+        "TOpLefts": sum(by_tag.get("over:" + k, 0) for k in ("add", "sub", "mul", "div")),
+    }
+    if not r.coverage or set(r.coverage) <= {"Init"}:
+        r.coverage = dict(table_counts)  # quick tier: states per operator from the table instead of -coverage
+        cnt["action_counts_from"] = "table"
+    else:
+        cnt["action_counts_from"] = "tlc -coverage"
+    ctx.tlc(r, "ErrProp depth<=%d" % (2 if quick else 3), vacuity_actions=ACTIONS)
+    # non-vacuity of the characterisation invariants: their antecedents occur
+    neg_sigma = sum(1 for fam in ("rat", "rat3") for piece in out[fam] for row in piece if row[2] < 0 and row[3][0] > 0)
+    law_fail = sum(1 for row in out["trans"] if row[1] and not row[3])
+    mag_fail = sum(1 for row in out["trans"] if row[1] and not row[2])
+    cnt.update(rule_negative_sigma=neg_sigma, symbolic_law_fails=law_fail, symbolic_magnitude_fails=mag_fail)
+    ctx.part("tlc", **cnt)
     return out
 
 
@@ -260,7 +292,7 @@ def _exact_part(ctx, out, NumberError, cal_err, mg):
         variants = [("", mkB, False)]
         if fam == "cal":
             variants.append((":numeric_grad", lambda: E.NEBackend(NumberError, cal_err, fd=True), True))
-        elif len(rows) < 60000 or (zlib.crc32(json.dumps(t).encode()) % 7 == 0):
+        elif zlib.crc32(json.dumps(t).encode()) % 4 == 0:
             variants.append((":int_constants", lambda: E.NEBackend(NumberError, cal_err, int_consts=True), False))
         for vname, mk, fd in variants:
             tol = TOL_NUMGRAD if fd else TOL_EXACT
@@ -471,7 +503,7 @@ def _params_trans_part(ctx, exact_rows, trans_rows, rng, mg, quick):
         run_one(t, np.array(g), 1e-9, "transcendental_tree")
     # vector / list / dict / matrix forms on a few tuples of trees
     n_multi = 0
-    for j in range(8 if quick else 120):
+    for j in range(4 if quick else 120):
         ts = rs.sample(sel, 3)
         V = _cov(rng, nmax)
         vals = [rs.choice([-2.0, -1.5, 0.5, 3.0, 1.25]) for _ in names]
@@ -550,7 +582,7 @@ def _bound_part(ctx, out, rng, mg, quick):
     kinds = {"none": None, "both": (-1.5, 2.5), "lower": (0.5, None), "upper": (None, 1.0)}
     n_fail = 0
     n_eval = 0
-    reps = 2 if quick else 10
+    reps = 1 if quick else 10
     for cfg in out["bound"]:
         vm = VarsManager(dtype=tf.float64)
         names = ["b%d" % i for i in range(len(cfg))]
@@ -594,6 +626,93 @@ def _bound_part(ctx, out, rng, mg, quick):
     ctx.part("trans_error_matrix", configurations=len(out["bound"]), evaluations=n_eval, failing=n_fail)
 
 
+def _vm_minimize_part(ctx, out, rng, mg, quick):
+    """VarsManager.minimize / minimize_error (the generic fit helper next to trans_error_matrix):
+    the uncertainties they report for a quadratic function with known Hessian A in the physical
+    parameters y must be sqrt(diag(A^-1)) whatever bounds are installed.
+    * minimize_error(fcn, result): differentiates fcn itself.
+    * minimize(fcn, method=callable): the minimiser is a stand-in that returns the exact minimum and the
+      exact inverse Hessian in the fit variables x, so that only the mapping to y is observed."""
+    import tensorflow as tf
+    from scipy.optimize import OptimizeResult
+
+    from tf_pwa.variable import VarsManager
+
+    kinds = {"none": None, "both": (-1.5, 2.5), "lower": (0.5, None), "upper": (None, 1.0)}
+    centre = {"none": 0.3, "both": 1.2, "lower": 1.4, "upper": -0.6}
+    n_eval = 0
+    fails = {}
+    cfgs = [c for c in out["bound"] if not quick or c[0] == "none"]
+    for cfg in cfgs:
+        nvar = len(cfg)
+        vm = VarsManager(dtype=tf.float64)
+        names = ["b%d" % i for i in range(nvar)]
+        c0 = np.array([centre[k] for k in cfg]) + rng.uniform(-0.05, 0.05, size=nvar)
+        for n, v in zip(names, c0):
+            vm.add_real_var(n, float(v))
+        a = rng.normal(size=(nvar, nvar))
+        A = a @ a.T + 0.5 * np.eye(nvar)
+        At = tf.constant(A)
+        ct = tf.constant(c0)
+
+        def fcn():
+            y = tf.stack([vm.variables[n] for n in names]) - ct
+            return 0.5 * tf.reduce_sum(y * tf.linalg.matvec(At, y))
+
+        bd = {n: kinds[k] for n, k in zip(names, cfg) if kinds[k] is not None}
+        with _quiet():
+            vm.set_bound(bd)
+        ref = np.sqrt(np.diag(np.linalg.inv(A)))
+        # (i) minimize_error at the exact minimum
+        res = OptimizeResult(x=c0.copy(), fun=0.0, success=True)
+        with _quiet():
+            got = np.array(vm.minimize_error(fcn, res))
+        n_eval += 1
+        ctx.count(1, distinct_key=("vm.minimize_error", tuple(cfg)), nontrivial=bool(bd))
+        for i, k in enumerate(cfg):
+            if not _close(float(got[i]), float(ref[i]), 1e-8):
+                key = "vm.minimize_error:%s" % ("unbounded" if k == "none" else k + "_bound")
+                fails[key] = fails.get(key, 0) + 1
+                ctx.violation(key, {"bounds": {n: list(v) for n, v in bd.items()}, "minimum": c0.tolist(), "hessian": A.tolist(),
+                                    "parameter": names[i], "got": float(got[i]), "expected sqrt(diag(H^-1))": float(ref[i])})
+            else:
+                mg.add("vm.minimize_error", float(got[i]), float(ref[i]))
+        # (ii) minimize with an exact stand-in minimiser
+        for n, v in zip(names, c0):
+            vm.set(n, float(v), val_in_fit=False)
+        x_min = np.array(vm.get_all_val(True), dtype=float)
+        d = np.ones(nvar)
+        for i, (n, k) in enumerate(zip(names, cfg)):
+            if k != "none":
+                b = vm.bnd_dic[n]
+                g, _ = E.richardson_grad(lambda z: b.get_x2y(float(z[0])), [x_min[i]])
+                d[i] = g[0]
+        Vx = np.linalg.inv(d[:, None] * A * d[None, :])
+
+        def exact_minimiser(f, x0, **kw):
+            val, grad = f(x_min)
+            if np.abs(grad).max() > 1e-9:
+                raise tlc.MachineryError("stand-in minimiser: gradient %s at the minimum" % grad)
+            return OptimizeResult(x=x_min.copy(), fun=val, jac=grad, hess_inv=Vx.copy(), success=True)
+
+        with _quiet():
+            ret = vm.minimize(fcn, method=exact_minimiser)
+        got = np.sqrt(np.abs(np.diag(np.array(ret.hess_inv))))
+        n_eval += 1
+        ctx.count(1, distinct_key=("vm.minimize", tuple(cfg)), nontrivial=bool(bd))
+        if not np.allclose(np.array(ret.x, dtype=float), c0, rtol=1e-9, atol=1e-9):
+            ctx.violation("vm.minimize:x:%s" % "-".join(cfg), {"got": list(map(float, ret.x)), "expected": c0.tolist()})
+        for i, k in enumerate(cfg):
+            if not _close(float(got[i]), float(ref[i]), 1e-6):
+                key = "vm.minimize:hess_inv:%s" % ("unbounded" if k == "none" else k + "_bound")
+                fails[key] = fails.get(key, 0) + 1
+                ctx.violation(key, {"bounds": {n: list(v) for n, v in bd.items()}, "minimum": c0.tolist(), "x_min": x_min.tolist(),
+                                    "parameter": names[i], "got": float(got[i]), "expected sqrt(diag(H^-1))": float(ref[i])})
+            else:
+                mg.add("vm.minimize:hess_inv", float(got[i]), float(ref[i]))
+    ctx.part("vm_minimize", configurations=len(cfgs), evaluations=n_eval, failures_by_key=json.dumps(fails, sort_keys=True))
+
+
 # ---------------------------------------------------------------------------
 def run(ctx):
     quick = ctx.tier == "quick"
@@ -616,6 +735,7 @@ def run(ctx):
     t0 = time.time()
     _params_trans_part(ctx, exact_rows, trans_rows, rng, mg, quick)
     _bound_part(ctx, out, rng, mg, quick)
+    _vm_minimize_part(ctx, out, rng, mg, quick)
     ctx.log("params_trans / trans_error_matrix done in %.1fs" % (time.time() - t0))
     from ..model_c09 import model_part
 
